@@ -128,11 +128,16 @@ func conc(args []string) {
 	res := vh.NewResult()
 
 	wide := wideVals()
+	// one value of every type at least (the random pool is small), the wide ones last
+	typed := []AVal{{T: "bool", X: []string{"T"}}, {T: "i64", X: []string{"42"}}, {T: "i64", X: []string{"-9223372036854775808"}},
+		{T: "f64", X: []string{"0.1"}}, {T: "f64", X: []string{"-1.5"}}, {T: "str", X: []string{"a,b"}}, {T: "str", X: []string{`a\,`}},
+		{T: "bools", X: []string{"T", "F"}}, {T: "i64s", X: []string{"1", "-1", "9223372036854775807"}},
+		{T: "f64s", X: []string{"1", "-1.5", "5e-324"}}, {T: "strs", X: []string{"x=y", "", "世界"}}}
 	const nShared, nWide = 12, 6
 	nregs := nShared + nWide + 1 // the last register is scratch (destination of concurrent Filters)
 	scratch := nregs
 	K := 16 + r.Intn(10)
-	s := newScen(r, 0, K, false, wide, nregs, tw, res)
+	s := newScen(r, 0, K, false, append(typed, wide...), nregs, tw, res)
 	nPool := len(s.pool) - len(wide) // ordinary values come first
 	nilp := Pred{Kind: "nil", Ks: []int{}, Ts: []string{}}
 
